@@ -6,6 +6,8 @@ props=[json.loads(l) for l in open(os.path.join(ROOT,'properties.jsonl'))]
 # id -> (level, technique, text, note, design_ref)
 CHECKS={}
 def add(i,level,tech,text,note): CHECKS[i]=(level,tech,text,note)
+def more(i,text,note=""):
+    l,t,x,n=CHECKS[i]; CHECKS[i]=(l,t,x+" "+text,(n+" "+note).strip())
 exec(open(os.path.join(ROOT,'tools','checks_table.py')).read())
 baseline=json.load(open('/root/.vp/BASELINE.json'))['cmd']
 m={
